@@ -50,16 +50,15 @@ def check(cx):
     # ---- C06.1 maintenance follows every table write ---------------------------------------------
     r1 = cx.rule("C06.1", "MPT: in DmlExecutor::{insert,update,delete} every success path from a table write to the "
                  "return passes maintain_secondary_indexes; CREATE INDEX populates the index before returning", floor=4)
-    for name in ("insert", "update", "delete"):
-        f = cx.guard(r1, name, p.fn, "%s::%s" % (DML, name))
-        if not f:
-            continue
+    fam = [g for g in p.fns.values() if (g.impl_adt == DML or (g.root or "").startswith(DML + "::")) and (g.root or g.id) != msi]
+    for f in sorted(fam, key=lambda x: x.id):
         ws = [c for c in f.calls() if c.callee in muts]
-        good = bool(ws)
-        for w in ws:
-            good = good and w.term["to"] is not None and p.all_success_paths_call(f, {msi}, w.term["to"])
-        cx.verdict(good, r1, name, f.where(), "%d table write(s), each followed by index maintenance" % len(ws),
-                   "a success path leaves DmlExecutor::%s after writing the table without maintaining the indexes" % name)
+        if not ws:
+            continue
+        good = all(w.term["to"] is not None and p.followed_interproc(f, w.term["to"], {msi}) for w in ws)
+        name = f.id.rsplit("::", 1)[-1]
+        cx.verdict(good, r1, name, f.where(), "%d table write(s), each followed by index maintenance (here or in every caller)" % len(ws),
+                   "a success path leaves %s after writing the table without maintaining the indexes" % f.id)
     f = cx.guard(r1, "create_unique_index", p.fn, "runtime::ddl::DdlExecutor::create_unique_index")
     if f:
         T = p.must_reach_set({"runtime::ddl::DdlExecutor::populate_index"})
@@ -81,7 +80,8 @@ def check(cx):
             if key in seen:
                 continue
             seen.add(key)
-            cx.verdict(root in WRITERS, r2, key, c.where(), "allowed: " + WRITERS.get(root, ""),
+            owned = root.startswith(DML + "::")     # any method of the DML executor: judged by C06.1
+            cx.verdict(root in WRITERS or owned, r2, key, c.where(), "allowed: " + WRITERS.get(root, "method of DmlExecutor (C06.1 applies)"),
                        "%s mutates a B-tree directly: a table write path that bypasses logging and index maintenance" % root)
 
     # ---- C06.3 the three maintenance arms ---------------------------------------------------------------
@@ -89,25 +89,32 @@ def check(cx):
                  "delete (Some,None,None), update (Some,Some,Some); the insert arm revives a dead entry or inserts, the "
                  "delete arm stamps the visible entry with the deleter's id, the update arm re-keys the entry from "
                  "the new row image", floor=6)
-    shapes = {"insert": ("None", "Some", "None"), "delete": ("Some", "None", "None"), "update": ("Some", "Some", "Some")}
-    for name, want in shapes.items():
-        f = p.fns.get("%s::%s" % (DML, name))
-        if not f:
+    VALID = {("None", "Some", "None"): "insert", ("Some", "None", "None"): "delete", ("Some", "Some", "Some"): "update"}
+    used = {}
+    for site in K.sites(p, msi):
+        f = site.fn
+        if site.callee != msi:
             continue
-        for c in f.calls():
-            if c.callee != msi:
-                continue
-            got = []
-            for o in c.args[2:5]:
-                l = op_local(o)
-                v = None
-                for b in f.blocks:
-                    for s in b["stmts"]:
-                        if l is not None and s["dst"] == [l] and s["rv"].get("adt") == "std::option::Option":
-                            v = s["rv"]["variant"]
-                got.append(v)
-            cx.verdict(tuple(got) == want, r3, "shape:" + name, c.where(), "passes %s" % (got,),
-                       "DmlExecutor::%s calls index maintenance with shape %s, expected %s: the wrong arm runs" % (name, got, want))
+        got = []
+        for o in site.args[2:5]:
+            l = op_local(o)
+            v = None
+            for b in f.blocks:
+                for s_ in b["stmts"]:
+                    if l is not None and s_["dst"] == [l] and s_["rv"].get("adt") == "std::option::Option":
+                        v = s_["rv"]["variant"]
+            got.append(v)
+        kind = VALID.get(tuple(got))
+        # the shape must match what the caller just did to the table: insert-shaped callers log Insert, ...
+        logs = {c.callee.rsplit("::", 1)[-1] for c in f.calls() if c.callee.startswith(K.LOGGER + "::log_")}
+        want_log = {"insert": "log_insert", "delete": "log_delete", "update": "log_update"}.get(kind)
+        consistent = kind is not None and (want_log in logs or not logs)
+        used[kind] = used.get(kind, 0) + 1
+        cx.verdict(consistent, r3, "shape:%s@%s" % (kind or "invalid", f.id.rsplit("::", 1)[-1]), site.where(), "passes %s (%s arm), caller logs %s" % (got, kind, sorted(logs)),
+                   "%s calls index maintenance with shape %s while it logs %s: the wrong maintenance arm runs" % (f.id, got, sorted(logs)))
+    for kind in ("insert", "delete", "update"):
+        if not used.get(kind):
+            cx.bad(r3, "shape:%s:never-used" % kind, "", "no caller selects the %s arm of index maintenance" % kind)
     fm = p.fns.get(msi)
     if fm:
         bie = DML + "::build_index_entry"
